@@ -598,6 +598,17 @@ class Translator:
             if any(t != NUM for _, t in args):
                 fail(n, f"{name} on non-number")
             return "(" + simple[name][0] + " " + " ".join(a for a, _ in args) + ")", NUM
+        if name == "_exp" and len(n.args) == 1 and not n.keywords:
+            # module-level helper: math.exp that saturates at +inf instead of raising OverflowError
+            d = self.find_def("_exp")
+            want = ("def _exp(x: float) -> float:\n    try:\n        return math.exp(x)\n    except OverflowError:\n"
+                    "        return float('inf')")
+            if ast.unparse(d) != want:
+                fail(d, "_exp is not the saturating exponential")
+            a, at = self.ex(n.args[0], env)
+            if at != NUM:
+                fail(n, "_exp on non-number")
+            return f"(nexp_sat {a})", NUM
         if name == "sorted" and len(n.args) == 1 and not n.keywords and isinstance(n.args[0], ast.Tuple) \
                 and len(n.args[0].elts) == 2:
             (a, at), (b, bt) = [self.ex(e, env) for e in n.args[0].elts]
@@ -1032,7 +1043,7 @@ def main(argv):
         if only and name not in only and not any(name in specs.SPECS[o].get("uses", ()) for o in only if o in specs.SPECS):
             continue
         src = os.path.join(repo, "src", "tea_tasting", spec["source"])
-        for inst in ("R", "Q"):
+        for inst in ("R", "Q") + (("X",) if name in getattr(specs, "X_INSTANCE", ()) else ()):
             text, sha = translate(src, spec, inst, name)
             p = os.path.join(coqdir, f"gen{inst}", f"{name}.v")
             if write_if_changed(p, text):
